@@ -1,3 +1,385 @@
-import StirVerif.C09.Model
+/-
+C09 — "Priors: value, gradient and Hessian are mutually consistent and convex".
+
+Property theorems over the model of `Model.lean` (the loops of QuadraticPrior / RelativeDifferencePrior / LogcoshPrior,
+transcribed line by line and tied to the C++ by the correspondence run of `checks/c09.py`).  Every statement is for all image
+boxes, weights boxes, weights, kappa images, penalisation factors and images (no size bound).  `K` is any linearly ordered
+field (ℚ — the type the driver executes the quadratic prior at — and ℝ are instances).
+
+Hypotheses that occur:
+* `SymWeights wb w` — the weights array has a symmetric index range and `w(-d) = w(d)`.  True for the default weights
+  (`compute_weights`) and for the documented example `{{{0,1,0},{1,0,1},{0,1,0}}}`; NOT enforced by `set_weights` / the parser:
+  `C09_quadratic_expansion_asymmetric_weights_fails` is the negative witness.
+* `w 0 0 0 = 0` — zero centre weight (default weights: yes).  With a non-zero centre weight the Hessian functions add
+  `w(0) κ_r²` to the diagonal although the value does not depend on it: `C09_quadratic_expansion_nonzero_centre_fails`.
+Not covered by theorems (correspondence run + oracle only): PLSPrior; float rounding; the RDP derivative statements at
+points with equal neighbouring values (`C09_rdp_derivatives_at_equal_values`).
+-/
+import StirVerif.C09.ProofsImage
+
 namespace StirVerif.C09
+
+section structural
+variable {K : Type} [Field K] [LinearOrder K] [IsStrictOrderedRing K]
+
+/-! ### "a single Hessian row equals the Hessian applied to the corresponding unit image" -/
+
+/-- `compute_Hessian(coords = c)` = `accumulate_Hessian_times_input(output = 0, input = unit image of c)`, for the shared loops of
+    the three neighbourhood priors (any `derivative_20`, any symmetric `derivative_11`), symmetric weights -/
+theorem C09_hessian_row_eq_H_unit (d20 d11 : K → K → K) (pf : K) (w : Img K) (κ : Option (Img K)) (b wb : Box) (cur : Img K)
+    (hw : SymWeights wb w) (h11 : ∀ a c : K, d11 a c = d11 c a)
+    (cz cy cx z y x : Int) (hc : InBox b cz cy cx) (hr : InBox b z y x) :
+    hessRow d20 d11 pf w κ b wb cur cz cy cx z y x
+      = hessTimes d20 d11 pf w κ b wb cur (unitImg cz cy cx) (fun _ _ _ => 0) z y x := by
+  rw [hessRow_eq_core, hessTimes_eq_core, zero_add]
+  exact hessRow_eq_hessTimes_unit d20 d11 pf w κ b wb cur hw h11 cz cy cx z y x hc hr
+
+/-- … for `QuadraticPrior` -/
+theorem C09_quadratic_hessian_row_eq_H_unit (pf : K) (w : Img K) (κ : Option (Img K)) (b wb : Box) (cur : Img K)
+    (hw : SymWeights wb w) (cz cy cx z y x : Int) (hc : InBox b cz cy cx) (hr : InBox b z y x) :
+    qHessRow pf w κ b wb cur cz cy cx z y x = qHessTimes pf w κ b wb cur (unitImg cz cy cx) (fun _ _ _ => 0) z y x :=
+  C09_hessian_row_eq_H_unit qD20 qD11 pf w κ b wb cur hw (fun _ _ => rfl) cz cy cx z y x hc hr
+
+/-- … for `RelativeDifferencePrior` -/
+theorem C09_rdp_hessian_row_eq_H_unit (γ ε pf : ℝ) (w : Img ℝ) (κ : Option (Img ℝ)) (b wb : Box) (cur : Img ℝ)
+    (hw : SymWeights wb w) (cz cy cx z y x : Int) (hc : InBox b cz cy cx) (hr : InBox b z y x) :
+    rHessRow γ ε pf w κ b wb cur cz cy cx z y x = rHessTimes γ ε pf w κ b wb cur (unitImg cz cy cx) (fun _ _ _ => 0) z y x :=
+  C09_hessian_row_eq_H_unit (rdpD20 γ ε) (rdpD11 γ ε) pf w κ b wb cur hw (rdpD11_comm γ ε) cz cy cx z y x hc hr
+
+/-- … for `LogcoshPrior` -/
+theorem C09_logcosh_hessian_row_eq_H_unit (s pf : ℝ) (w : Img ℝ) (κ : Option (Img ℝ)) (b wb : Box) (cur : Img ℝ)
+    (hw : SymWeights wb w) (cz cy cx z y x : Int) (hc : InBox b cz cy cx) (hr : InBox b z y x) :
+    lHessRow s pf w κ b wb cur cz cy cx z y x = lHessTimes s pf w κ b wb cur (unitImg cz cy cx) (fun _ _ _ => 0) z y x :=
+  C09_hessian_row_eq_H_unit (lcD20 s) (lcD11 s) pf w κ b wb cur hw (lcD11_comm s) cz cy cx z y x hc hr
+
+/-! ### "The Hessian is symmetric" -/
+
+/-- `⟨u, H v⟩ = ⟨v, H u⟩` where `H v` is what `accumulate_Hessian_times_input` adds to its output -/
+theorem C09_H_symmetric (d20 d11 : K → K → K) (pf : K) (w : Img K) (κ : Option (Img K)) (b wb : Box) (cur u v : Img K)
+    (hw : SymWeights wb w) (h11 : ∀ a c : K, d11 a c = d11 c a) :
+    inner b u (hessTimesCore d20 d11 pf w κ b wb cur v) = inner b v (hessTimesCore d20 d11 pf w κ b wb cur u) :=
+  H_symmetric d20 d11 pf w κ b wb cur u v hw fun _ _ _ _ => h11 _ _
+
+/-- the same statement on the API function (output initialised with 0) -/
+theorem C09_H_symmetric_api (d20 d11 : K → K → K) (pf : K) (w : Img K) (κ : Option (Img K)) (b wb : Box) (cur u v : Img K)
+    (hw : SymWeights wb w) (h11 : ∀ a c : K, d11 a c = d11 c a) :
+    inner b u (hessTimes d20 d11 pf w κ b wb cur v fun _ _ _ => 0) = inner b v (hessTimes d20 d11 pf w κ b wb cur u fun _ _ _ => 0) := by
+  have h := C09_H_symmetric d20 d11 pf w κ b wb cur u v hw h11
+  unfold inner at h ⊢
+  simpa only [hessTimes_eq_core, zero_add] using h
+
+/-! ### "… and positive semi-definite for priors that declare themselves convex" -/
+
+/-- `⟨e, H e⟩ ≥ 0` for non-negative symmetric weights, non-negative kappa and penalisation factor whenever the 2×2 Hessians of the
+    potential are positive semi-definite at the image values -/
+theorem C09_H_psd (d20 d11 : K → K → K) (pf : K) (w : Img K) (κ : Option (Img K)) (b wb : Box) (cur e : Img K)
+    (hw : SymWeights wb w) (hw0 : ∀ dz dy dx, InBox wb dz dy dx → 0 ≤ w dz dy dx) (hκ : KappaNonneg b κ) (hpf : 0 ≤ pf)
+    (h11 : ∀ a c : K, d11 a c = d11 c a)
+    (hpsd : ∀ z y x z' y' x', InBox b z y x → InBox b z' y' x' → ∀ a c : K,
+      0 ≤ d20 (cur z y x) (cur z' y' x') * a * a + 2 * d11 (cur z y x) (cur z' y' x') * a * c + d20 (cur z' y' x') (cur z y x) * c * c) :
+    0 ≤ inner b e (hessTimesCore d20 d11 pf w κ b wb cur e) :=
+  H_psd d20 d11 pf w κ b wb cur e hw hw0 hκ hpf (fun _ _ _ _ => h11 _ _)
+    fun _ _ hr hs a c => hpsd _ _ _ _ _ _ (mem_boxF.mp hr) (mem_boxF.mp hs) a c
+
+/-- `QuadraticPrior` (`is_convex() = true`): the Hessian is positive semi-definite -/
+theorem C09_quadratic_H_psd (pf : K) (w : Img K) (κ : Option (Img K)) (b wb : Box) (cur e : Img K)
+    (hw : SymWeights wb w) (hw0 : ∀ dz dy dx, InBox wb dz dy dx → 0 ≤ w dz dy dx) (hκ : KappaNonneg b κ) (hpf : 0 ≤ pf) :
+    0 ≤ inner b e (hessTimesCore qD20 qD11 pf w κ b wb cur e) := by
+  refine C09_H_psd qD20 qD11 pf w κ b wb cur e hw hw0 hκ hpf (fun _ _ => rfl) fun _ _ _ _ _ _ _ _ a c => ?_
+  simp only [qD20, qD11]
+  nlinarith [sq_nonneg (a - c)]
+
+/-- `RelativeDifferencePrior` (`is_convex() = true`), positive image, `γ, ε ≥ 0`: the Hessian is positive semi-definite -/
+theorem C09_rdp_H_psd (γ ε pf : ℝ) (w : Img ℝ) (κ : Option (Img ℝ)) (b wb : Box) (cur e : Img ℝ)
+    (hw : SymWeights wb w) (hw0 : ∀ dz dy dx, InBox wb dz dy dx → 0 ≤ w dz dy dx) (hκ : KappaNonneg b κ) (hpf : 0 ≤ pf)
+    (hγ : 0 ≤ γ) (hε : 0 ≤ ε) (hcur : ∀ z y x, InBox b z y x → 0 < cur z y x) :
+    0 ≤ inner b e (hessTimesCore (rdpD20 γ ε) (rdpD11 γ ε) pf w κ b wb cur e) := by
+  refine C09_H_psd _ _ pf w κ b wb cur e hw hw0 hκ hpf (rdpD11_comm γ ε) fun z y x z' y' x' h h' a c => ?_
+  have h1 := hcur _ _ _ h
+  have h2 := hcur _ _ _ h'
+  refine rdp_psd γ ε _ _ a c ?_ (Or.inl h1)
+  rw [rdpDen_eq]
+  have := mul_nonneg hγ (abs_nonneg (cur z y x - cur z' y' x'))
+  linarith
+
+/-- `LogcoshPrior` (`is_convex() = true`): the Hessian is positive semi-definite -/
+theorem C09_logcosh_H_psd (s pf : ℝ) (w : Img ℝ) (κ : Option (Img ℝ)) (b wb : Box) (cur e : Img ℝ)
+    (hw : SymWeights wb w) (hw0 : ∀ dz dy dx, InBox wb dz dy dx → 0 ≤ w dz dy dx) (hκ : KappaNonneg b κ) (hpf : 0 ≤ pf) :
+    0 ≤ inner b e (hessTimesCore (lcD20 s) (lcD11 s) pf w κ b wb cur e) :=
+  C09_H_psd _ _ pf w κ b wb cur e hw hw0 hκ hpf (lcD11_comm s) fun _ _ _ _ _ _ _ _ a c => lc_psd s _ _ a c
+
+/-! ### "the gradient is the derivative of the value, the Hessian-times-vector is the directional derivative of the gradient" -/
+
+/-- QuadraticPrior, exact (no limit needed): `value(λ + t e) = value(λ) + t ⟨grad λ, e⟩ + t²/2 ⟨e, H e⟩` for symmetric weights
+    with zero centre.  So `grad` is the derivative of `value` and `H` its second derivative. -/
+theorem C09_quadratic_value_expansion (pf : K) (w : Img K) (κ : Option (Img K)) (b wb : Box) (lam e : Img K) (t : K)
+    (hw : SymWeights wb w) (hw0 : w 0 0 0 = 0) :
+    qValue pf w κ b wb (fun z y x => lam z y x + t * e z y x)
+      = qValue pf w κ b wb lam + t * inner b (qGrad pf w κ b wb lam) e
+        + t ^ 2 / 2 * inner b e (qHessTimes pf w κ b wb lam e fun _ _ _ => 0) := by
+  have h := qValue_expansion pf w κ b wb lam e t hw hw0
+  simp only [qValue_eq_core]
+  unfold inner at h ⊢
+  simpa only [qGrad, qHessTimes, grad_eq_core, hessTimes_eq_core, zero_add] using h
+
+/-- QuadraticPrior: `grad(λ + t e) = grad(λ) + t · H e` at every voxel (zero centre weight; no symmetry needed) -/
+theorem C09_quadratic_gradient_affine (pf : K) (w : Img K) (κ : Option (Img K)) (b wb : Box) (lam e : Img K) (t : K)
+    (hw0 : w 0 0 0 = 0) (z y x : Int) :
+    qGrad pf w κ b wb (fun z y x => lam z y x + t * e z y x) z y x
+      = qGrad pf w κ b wb lam z y x + t * (qHessTimes pf w κ b wb lam e (fun _ _ _ => 0) z y x) := by
+  simp only [qGrad, qHessTimes, grad_eq_core, hessTimes_eq_core, zero_add]
+  exact qGrad_linear pf w κ b wb lam e t hw0 z y x
+
+end structural
+
+/-- RDP: `derivative_10 = ∂(2ψ)/∂x`, `derivative_20 = ∂ derivative_10/∂x_j`, `derivative_11 = ∂ derivative_10/∂x_k`
+    (ψ = `RelativeDifferencePrior::value`; `compute_value` visits every unordered pair twice), at `x ≠ y` with positive denominator -/
+theorem C09_rdp_derivatives (γ ε x y : ℝ) (hxy : x ≠ y) (hD : 0 < rdpDen γ ε x y) (hpos : 0 < x ∨ 0 < y ∨ 0 < ε) :
+    HasDerivAt (fun t => two * rdpPsi γ ε t y) (rdpD10 γ ε x y) x
+    ∧ HasDerivAt (fun t => rdpD10 γ ε t y) (rdpD20 γ ε x y) x
+    ∧ HasDerivAt (fun t => rdpD10 γ ε x t) (rdpD11 γ ε x y) y :=
+  ⟨rdp_d10_is_derivative γ ε x y hxy hD.ne', rdp_d20_is_derivative γ ε x y hxy hD.ne' hpos,
+   rdp_d11_is_derivative γ ε x y hxy hD.ne' hpos⟩
+
+/-- RDP is convex in the pair: `d20 ≥ 0`-type condition `d20(x,y) a² + 2 d11(x,y) a c + d20(y,x) c² ≥ 0` (the determinant is 0) -/
+theorem C09_rdp_potential_convex (γ ε x y a c : ℝ) (hD : 0 < rdpDen γ ε x y) (hpos : 0 < x ∨ 0 < y ∨ 0 < ε) :
+    0 ≤ rdpD20 γ ε x y * a * a + 2 * rdpD11 γ ε x y * a * c + rdpD20 γ ε y x * c * c :=
+  rdp_psd γ ε x y a c hD hpos
+
+/-- log-cosh: `(1/s) tanh(s(x-y))` is the derivative of the value term `1/s² logcosh(s(x-y))` (branch `|s(x-y)| < 30` of
+    `LogcoshPrior::logcosh`), `derivative_20`/`derivative_11` are the derivatives of the gradient factor -/
+theorem C09_logcosh_derivatives (s x y : ℝ) (hs : s ≠ 0) (h : |s * (x - y)| < 30) :
+    HasDerivAt (fun t => lcTerm s 1 t y) (lcD10 s x y) x
+    ∧ HasDerivAt (fun t => lcD10 s t y) (lcD20 s x y) x
+    ∧ HasDerivAt (fun t => lcD10 s x t) (lcD11 s x y) y :=
+  ⟨lc_d10_is_derivative s x y hs h, lc_d20_is_derivative s x y hs, lc_d11_is_derivative s x y hs⟩
+
+/-- log-cosh is convex in the pair -/
+theorem C09_logcosh_potential_convex (s x y a c : ℝ) :
+    0 ≤ lcD20 s x y * a * a + 2 * lcD11 s x y * a * c + lcD20 s y x * c * c :=
+  lc_psd s x y a c
+
+/-- **RDP: the gradient is the derivative of the value** along every line `λ + t e`, at every `t0` where neighbouring voxels have
+    different values and the denominators do not vanish (symmetric weights) -/
+theorem C09_rdp_gradient_is_derivative_of_value (γ ε pf : ℝ) (w : Img ℝ) (κ : Option (Img ℝ)) (b wb : Box) (lam e : Img ℝ) (t0 : ℝ)
+    (hw : SymWeights wb w)
+    (hne : ∀ z y x z' y' x', InBox b z y x → InBox b z' y' x' → ¬ (z = z' ∧ y = y' ∧ x = x') →
+      lam z y x + t0 * e z y x ≠ lam z' y' x' + t0 * e z' y' x')
+    (hD : ∀ z y x z' y' x', InBox b z y x → InBox b z' y' x' →
+      rdpDen γ ε (lam z y x + t0 * e z y x) (lam z' y' x' + t0 * e z' y' x') ≠ 0) :
+    HasDerivAt (fun t => rValue γ ε pf w κ b wb (fun z y x => lam z y x + t * e z y x))
+      (inner b (rGrad γ ε pf w κ b wb (fun z y x => lam z y x + t0 * e z y x)) e) t0 :=
+  rdp_gradient_is_derivative_of_value γ ε pf w κ b wb lam e t0 hw hne hD
+
+/-- **RDP: the Hessian-times-vector is the directional derivative of the gradient** (same conditions; zero centre weight) -/
+theorem C09_rdp_hessian_is_derivative_of_gradient (γ ε pf : ℝ) (w : Img ℝ) (κ : Option (Img ℝ)) (b wb : Box) (lam v : Img ℝ) (t0 : ℝ)
+    (hw0 : w 0 0 0 = 0) (z y x : Int) (hr : InBox b z y x)
+    (hne : ∀ z y x z' y' x', InBox b z y x → InBox b z' y' x' → ¬ (z = z' ∧ y = y' ∧ x = x') →
+      lam z y x + t0 * v z y x ≠ lam z' y' x' + t0 * v z' y' x')
+    (hD : ∀ z y x z' y' x', InBox b z y x → InBox b z' y' x' →
+      rdpDen γ ε (lam z y x + t0 * v z y x) (lam z' y' x' + t0 * v z' y' x') ≠ 0)
+    (hpos : ∀ z y x, InBox b z y x → 0 < lam z y x + t0 * v z y x) :
+    HasDerivAt (fun t => gradCore (rdpD10 γ ε) pf w κ b wb (fun z y x => lam z y x + t * v z y x) z y x)
+      (hessTimesCore (rdpD20 γ ε) (rdpD11 γ ε) pf w κ b wb (fun z y x => lam z y x + t0 * v z y x) v z y x) t0 :=
+  grad_hasDerivAt (rdpD10 γ ε) (rdpD20 γ ε) (rdpD11 γ ε) pf w κ b wb lam v t0 hw0 z y x hr fun r s hr hs _ hrs =>
+    rdp_d10_line γ ε (lam.at r) (lam.at s) (v.at r) (v.at s) t0
+      (hne _ _ _ _ _ _ (mem_boxF.mp hr) (mem_boxF.mp hs) fun h => hrs (by ext <;> simp [h.1, h.2.1, h.2.2]))
+      (hD _ _ _ _ _ _ (mem_boxF.mp hr) (mem_boxF.mp hs)) (Or.inl (hpos _ _ _ (mem_boxF.mp hr)))
+
+/-- **log-cosh: the Hessian-times-vector is the directional derivative of the gradient** (zero centre weight) -/
+theorem C09_logcosh_hessian_is_derivative_of_gradient (s pf : ℝ) (w : Img ℝ) (κ : Option (Img ℝ)) (b wb : Box) (lam v : Img ℝ) (t0 : ℝ)
+    (hs : s ≠ 0) (hw0 : w 0 0 0 = 0) (z y x : Int) (hr : InBox b z y x) :
+    HasDerivAt (fun t => gradCore (lcD10 s) pf w κ b wb (fun z y x => lam z y x + t * v z y x) z y x)
+      (hessTimesCore (lcD20 s) (lcD11 s) pf w κ b wb (fun z y x => lam z y x + t0 * v z y x) v z y x) t0 :=
+  grad_hasDerivAt (lcD10 s) (lcD20 s) (lcD11 s) pf w κ b wb lam v t0 hw0 z y x hr fun r s' _ _ _ _ =>
+    lc_d10_line s (lam.at r) (lam.at s') (v.at r) (v.at s') t0 hs
+
+/-- **log-cosh: the gradient is the derivative of the value** along every line, where all neighbour differences are on the branch
+    `|s Δ| < 30` of `logcosh` (symmetric weights) -/
+theorem C09_logcosh_gradient_is_derivative_of_value (s pf : ℝ) (w : Img ℝ) (κ : Option (Img ℝ)) (b wb : Box) (lam e : Img ℝ) (t0 : ℝ)
+    (hs : s ≠ 0) (hw : SymWeights wb w)
+    (hbr : ∀ z y x z' y' x', InBox b z y x → InBox b z' y' x' →
+      |s * ((lam z y x + t0 * e z y x) - (lam z' y' x' + t0 * e z' y' x'))| < 30) :
+    HasDerivAt (fun t => lValue s pf w κ b wb (fun z y x => lam z y x + t * e z y x))
+      (inner b (lGrad s pf w κ b wb (fun z y x => lam z y x + t0 * e z y x)) e) t0 :=
+  logcosh_gradient_is_derivative_of_value s pf w κ b wb lam e t0 hs hw hbr
+
+section structural2
+variable {K : Type} [Field K] [LinearOrder K] [IsStrictOrderedRing K]
+
+/-! ### "value, gradient and Hessian scale linearly with the penalisation factor" -/
+
+theorem C09_linear_in_penalisation_factor (d10 d20 d11 : K → K → K) (c pf : K) (w : Img K) (κ : Option (Img K)) (b wb : Box)
+    (img inp : Img K) (cz cy cx z y x : Int) :
+    qValue (c * pf) w κ b wb img = c * qValue pf w κ b wb img
+    ∧ grad d10 (c * pf) w κ b wb img z y x = c * grad d10 pf w κ b wb img z y x
+    ∧ hessRow d20 d11 (c * pf) w κ b wb img cz cy cx z y x = c * hessRow d20 d11 pf w κ b wb img cz cy cx z y x
+    ∧ hessTimes d20 d11 (c * pf) w κ b wb img inp (fun _ _ _ => 0) z y x
+        = c * hessTimes d20 d11 pf w κ b wb img inp (fun _ _ _ => 0) z y x := by
+  simp only [qValue_eq_core, grad_eq_core, hessRow_eq_core, hessTimes_eq_core, zero_add]
+  exact ⟨qValueCore_scale c pf w κ b wb img, gradCore_scale d10 c pf w κ b wb img z y x,
+    hessRowCore_scale d20 d11 c pf w κ b wb img cz cy cx z y x, hessTimesCore_scale d20 d11 c pf w κ b wb img inp z y x⟩
+
+/-- the early returns `if (penalisation_factor == 0)` agree with the loops (which would compute `… * 0`) -/
+theorem C09_zero_penalisation_shortcuts (d10 d20 d11 : K → K → K) (pf : K) (w : Img K) (κ : Option (Img K)) (b wb : Box)
+    (img inp out : Img K) (cz cy cx z y x : Int) :
+    qValue pf w κ b wb img = qValueCore pf w κ b wb img
+    ∧ grad d10 pf w κ b wb img z y x = gradCore d10 pf w κ b wb img z y x
+    ∧ hessRow d20 d11 pf w κ b wb img cz cy cx z y x = hessRowCore d20 d11 pf w κ b wb img cz cy cx z y x
+    ∧ hessTimes d20 d11 pf w κ b wb img inp out z y x = out z y x + hessTimesCore d20 d11 pf w κ b wb img inp z y x :=
+  ⟨qValue_eq_core _ _ _ _ _ _, grad_eq_core _ _ _ _ _ _ _ _ _ _, hessRow_eq_core _ _ _ _ _ _ _ _ _ _ _ _ _ _,
+   hessTimes_eq_core _ _ _ _ _ _ _ _ _ _ _ _ _⟩
+
+/-! ### "the gradient vanishes for uniform images" -/
+
+theorem C09_grad_uniform_zero (d10 : K → K → K) (pf : K) (w : Img K) (κ : Option (Img K)) (b wb : Box) (c : K)
+    (h : d10 c c = 0) (z y x : Int) : grad d10 pf w κ b wb (fun _ _ _ => c) z y x = 0 := by
+  rw [grad_eq_core]; exact gradCore_uniform d10 pf w κ b wb c h z y x
+
+theorem C09_quadratic_grad_uniform_zero (pf : K) (w : Img K) (κ : Option (Img K)) (b wb : Box) (c : K) (z y x : Int) :
+    qGrad pf w κ b wb (fun _ _ _ => c) z y x = 0 :=
+  C09_grad_uniform_zero qD10 pf w κ b wb c (by simp [qD10]) z y x
+
+/-! ### "voxels at the image border interact only with neighbours inside the image" -/
+
+/-- every offset visited by a clipped neighbourhood loop lies in the weights range and leads to an index inside the image -/
+theorem C09_border_uses_only_inside_neighbours (wlo whi lo hi c d : Int)
+    (h : d ∈ irange (max wlo (lo - c)) (min whi (hi - c))) : wlo ≤ d ∧ d ≤ whi ∧ lo ≤ c + d ∧ c + d ≤ hi :=
+  clipped_in_image wlo whi lo hi c d h
+
+/-- consequently value, gradient and Hessian-times-vector only depend on image values inside the image … -/
+theorem C09_depends_only_on_inside_values (term : K → K → K → K) (d10 d20 d11 : K → K → K) (pf : K) (w : Img K) (κ : Option (Img K))
+    (b wb : Box) (img img' inp inp' : Img K)
+    (h : ∀ z y x, InBox b z y x → img z y x = img' z y x) (h' : ∀ z y x, InBox b z y x → inp z y x = inp' z y x)
+    (z y x : Int) (hr : InBox b z y x) :
+    valueSum term w κ b wb img = valueSum term w κ b wb img'
+    ∧ gradCore d10 pf w κ b wb img z y x = gradCore d10 pf w κ b wb img' z y x
+    ∧ hessTimesCore d20 d11 pf w κ b wb img inp z y x = hessTimesCore d20 d11 pf w κ b wb img' inp' z y x :=
+  ⟨valueSum_congr term w κ b wb img img' h, gradCore_congr d10 pf w κ b wb img img' h z y x hr,
+   hessTimesCore_congr d20 d11 pf w κ b wb img img' inp inp' h h' z y x hr⟩
+
+/-- … and the gradient at voxel `r` is unchanged when the image changes at a voxel `s ≠ r` whose offset `s - r` is outside the weights box -/
+theorem C09_gradient_local (d10 : K → K → K) (pf : K) (w : Img K) (κ : Option (Img K)) (b wb : Box) (img img' : Img K)
+    (z y x sz sy sx : Int) (hs : ¬ InBox wb (sz - z) (sy - y) (sx - x)) (hne : ¬ (sz = z ∧ sy = y ∧ sx = x))
+    (h : ∀ z' y' x', ¬ (z' = sz ∧ y' = sy ∧ x' = sx) → img z' y' x' = img' z' y' x') :
+    gradCore d10 pf w κ b wb img z y x = gradCore d10 pf w κ b wb img' z y x :=
+  gradCore_local d10 pf w κ b wb img img' z y x sz sy sx hs hne h
+
+end structural2
+
+/-! ### non-vacuity: the hypotheses are satisfiable by non-trivial instances -/
+
+/-- 3×3×3 nearest-neighbour-and-diagonal weights with zero centre (the shape of the default weights) -/
+def exW : Img ℚ := fun dz dy dx => if dz = 0 ∧ dy = 0 ∧ dx = 0 then 0 else 1
+def exWB : Box := ⟨-1, 1, -1, 1, -1, 1⟩
+
+example : SymWeights exWB exW ∧ exW 0 0 0 = 0 ∧ (∀ dz dy dx, InBox exWB dz dy dx → 0 ≤ exW dz dy dx) := by
+  refine ⟨⟨by decide, fun dz dy dx _ => ?_⟩, by simp [exW], fun dz dy dx _ => ?_⟩
+  · unfold exW
+    have : (-dz = 0 ∧ -dy = 0 ∧ -dx = 0) ↔ (dz = 0 ∧ dy = 0 ∧ dx = 0) := by omega
+    simp only [this]
+  · unfold exW; split_ifs <;> norm_num
+
+example : KappaNonneg (K := ℚ) ⟨0, 1, 0, 2, 0, 3⟩ (some fun _ _ x => if x = 0 then 1 / 2 else 2) := by
+  intro k hk z y x _
+  cases hk
+  beta_reduce
+  split_ifs <;> norm_num
+
+example : InBox ⟨0, 1, 0, 2, 0, 3⟩ 1 2 3 ∧ ¬ InBox ⟨0, 1, 0, 2, 0, 3⟩ 2 0 0 := by decide
+
+/-- the hypotheses of the RDP statements hold e.g. for γ = 2, ε = 1, x = 1, y = 2 -/
+example : (1 : ℝ) ≠ 2 ∧ 0 < rdpDen 2 1 (1 : ℝ) 2 ∧ (0 < (1 : ℝ) ∨ 0 < (2 : ℝ) ∨ 0 < (1 : ℝ)) := by
+  refine ⟨by norm_num, ?_, Or.inl one_pos⟩
+  rw [rdpDen_eq]; norm_num [abs_of_neg]
+
+example : (2 : ℝ) ≠ 0 ∧ |(2 : ℝ) * (3 - 1)| < 30 := by
+  refine ⟨by norm_num, ?_⟩
+  rw [abs_of_pos] <;> norm_num
+
+/-! ### negative witnesses: what fails without the hypotheses (replayed on the implementation by the harness) -/
+
+/-- 1×1×2 image -/
+def nB : Box := ⟨0, 0, 0, 0, 0, 1⟩
+/-- weights on the offsets x ∈ {-1, 0, 1} -/
+def nWB : Box := ⟨0, 0, 0, 0, -1, 1⟩
+/-- only the forward neighbour has a weight: asymmetric -/
+def nWasym : Img ℚ := fun _ _ dx => if dx = 1 then 1 else 0
+/-- symmetric, but non-zero centre weight -/
+def nWcentre : Img ℚ := fun _ _ dx => if dx = 0 then 2 else 1
+def nLam : Img ℚ := fun _ _ x => if x = 0 then 3 else 1
+def nE : Img ℚ := fun _ _ x => if x = 0 then 1 else 0
+
+theorem irange_eval : irange 0 0 = [0] ∧ irange 0 1 = [0, 1] ∧ irange (-1) 0 = [-1, 0] ∧ irange (-1) 1 = [-1, 0, 1] := by decide
+
+/-- with asymmetric user weights the gradient of `QuadraticPrior` is NOT the derivative of its value: the second-order expansion
+    (exact for symmetric weights, `C09_quadratic_value_expansion`) fails: 9/4 ≠ 1 + 2 + 1/2 -/
+theorem C09_quadratic_expansion_asymmetric_weights_fails :
+    ¬ (qValue 1 nWasym none nB nWB (fun z y x => nLam z y x + 1 * nE z y x)
+        = qValue 1 nWasym none nB nWB nLam + 1 * inner nB (qGrad 1 nWasym none nB nWB nLam) nE
+          + 1 ^ 2 / 2 * inner nB nE (qHessTimes 1 nWasym none nB nWB nLam nE fun _ _ _ => 0)) := by
+  obtain ⟨r00, r01, rm10, rm11⟩ := irange_eval
+  have v1 : qValue 1 nWasym none nB nWB (fun z y x => nLam z y x + 1 * nE z y x) = 9 / 4 := by
+    simp [qValue, qValueCore, valueSum, voxSum, nbSum, sumRange, nB, nWB, r00, r01, rm10, qTerm, sq, four, kfac, nWasym, nLam, nE]
+    norm_num
+  have v0 : qValue 1 nWasym none nB nWB nLam = 1 := by
+    simp [qValue, qValueCore, valueSum, voxSum, nbSum, sumRange, nB, nWB, r00, r01, rm10, qTerm, sq, four, kfac, nWasym, nLam]
+    norm_num
+  have g : inner nB (qGrad 1 nWasym none nB nWB nLam) nE = 2 := by
+    simp [inner, qGrad, grad, gradCore, voxSum, nbSum, sumRange, nB, nWB, r00, r01, rm10, qD10, kfac, nWasym, nLam, nE]
+    norm_num
+  have hh : inner nB nE (qHessTimes 1 nWasym none nB nWB nLam nE fun _ _ _ => 0) = 1 := by
+    simp [inner, qHessTimes, hessTimes, hessTimesCore, voxSum, nbSum, sumRange, nB, nWB, r00, r01, rm10, qD20, qD11, kfac, nWasym, nE]
+  rw [v1, v0, g, hh]; norm_num
+
+/-- … and the Hessian of `QuadraticPrior` is not symmetric for these weights: `⟨e0, H e1⟩ = -1 ≠ 0 = ⟨e1, H e0⟩` -/
+theorem C09_quadratic_H_symmetric_asymmetric_weights_fails :
+    ¬ (inner nB (unitImg 0 0 0) (qHessTimes 1 nWasym none nB nWB nLam (unitImg 0 0 1) fun _ _ _ => 0)
+        = inner nB (unitImg 0 0 1) (qHessTimes 1 nWasym none nB nWB nLam (unitImg 0 0 0) fun _ _ _ => 0)) := by
+  obtain ⟨r00, r01, rm10, rm11⟩ := irange_eval
+  have a : inner nB (unitImg 0 0 0) (qHessTimes 1 nWasym none nB nWB nLam (unitImg 0 0 1) fun _ _ _ => 0) = -1 := by
+    simp [inner, qHessTimes, hessTimes, hessTimesCore, voxSum, nbSum, sumRange, nB, nWB, r00, r01, rm10, qD20, qD11, kfac, nWasym, unitImg]
+  have c : inner nB (unitImg 0 0 1) (qHessTimes 1 nWasym none nB nWB nLam (unitImg 0 0 0) fun _ _ _ => 0) = 0 := by
+    simp [inner, qHessTimes, hessTimes, hessTimesCore, voxSum, nbSum, sumRange, nB, nWB, r00, r01, rm10, qD20, qD11, kfac, nWasym, unitImg]
+  rw [a, c]; norm_num
+
+/-- with a non-zero centre weight the Hessian functions of `QuadraticPrior` are not the second derivative of the value:
+    the expansion fails, 9/2 ≠ 2 + 2 + 3/2 -/
+theorem C09_quadratic_expansion_nonzero_centre_fails :
+    ¬ (qValue 1 nWcentre none nB nWB (fun z y x => nLam z y x + 1 * nE z y x)
+        = qValue 1 nWcentre none nB nWB nLam + 1 * inner nB (qGrad 1 nWcentre none nB nWB nLam) nE
+          + 1 ^ 2 / 2 * inner nB nE (qHessTimes 1 nWcentre none nB nWB nLam nE fun _ _ _ => 0)) := by
+  obtain ⟨r00, r01, rm10, rm11⟩ := irange_eval
+  have v1 : qValue 1 nWcentre none nB nWB (fun z y x => nLam z y x + 1 * nE z y x) = 9 / 2 := by
+    simp [qValue, qValueCore, valueSum, voxSum, nbSum, sumRange, nB, nWB, r00, r01, rm10, qTerm, sq, four, kfac, nWcentre, nLam, nE]
+    norm_num
+  have v0 : qValue 1 nWcentre none nB nWB nLam = 2 := by
+    simp [qValue, qValueCore, valueSum, voxSum, nbSum, sumRange, nB, nWB, r00, r01, rm10, qTerm, sq, four, kfac, nWcentre, nLam]
+    norm_num
+  have g : inner nB (qGrad 1 nWcentre none nB nWB nLam) nE = 2 := by
+    simp [inner, qGrad, grad, gradCore, voxSum, nbSum, sumRange, nB, nWB, r00, r01, rm10, qD10, kfac, nWcentre, nLam, nE]
+    norm_num
+  have hh : inner nB nE (qHessTimes 1 nWcentre none nB nWB nLam nE fun _ _ _ => 0) = 3 := by
+    simp [inner, qHessTimes, hessTimes, hessTimesCore, voxSum, nbSum, sumRange, nB, nWB, r00, r01, rm10, qD20, qD11, kfac, nWcentre, nE]
+    norm_num
+  rw [v1, v0, g, hh]; norm_num
+
+/-! ### clauses that are stated but NOT proved -/
+
+/-- the RDP derivative statements at points with `x = y` (the potential is C² there as well, but `|x - y|` is not differentiable,
+    so the proofs above do not apply); covered by the finite-difference oracle only -/
+def C09_rdp_derivatives_at_equal_values : Prop :=
+  ∀ γ ε x : ℝ, 0 < rdpDen γ ε x x → (0 < x ∨ 0 < ε) →
+    HasDerivAt (fun t => two * rdpPsi γ ε t x) (rdpD10 γ ε x x) x ∧ HasDerivAt (fun t => rdpD10 γ ε t x) (rdpD20 γ ε x x) x
+
+/-- PLSPrior: for strictly interior voxels and spatially uniform kappa the gradient is the derivative of the value.
+    Not proved (the model of PLS is only executed, at `Float`); checked by the oracle with central differences.  At border voxels
+    and for non-uniform kappa the statement is FALSE for the code (known-candidate keys `pls:…`). -/
+def C09_pls_gradient_is_derivative_of_value_interior : Prop :=
+  ∀ (only2D : Bool) (α η pf : ℝ) (b : Box) (anat lam : Img ℝ) (z y x : Int),
+    0 < α → b.z0 < z ∧ z < b.z1 ∧ b.y0 < y ∧ y < b.y1 ∧ b.x0 < x ∧ x < b.x1 →
+    HasDerivAt (fun t => plsValue only2D α pf (plsSetUp only2D η b anat) none b
+        (fun z' y' x' => lam z' y' x' + if z' = z ∧ y' = y ∧ x' = x then t else 0))
+      (plsGrad only2D α pf (plsSetUp only2D η b anat) none b lam z y x) 0
+
 end StirVerif.C09
